@@ -1038,4 +1038,4 @@ LEAN_TARGETS = LEAN_TARGETS + ["OdxVerif.Props.C04Nested2b"]
 THEOREMS = THEOREMS + [P + t for t in [
     "C04_nested2b", "C04_nested_accepts_iff2b", "encodeMessage_nested2b_cases", "DescribedP2b.okW", "PDesc.ofMinMaxMidBytes_okWM",
     "PDesc.ofMinMaxMidBytes_fill_isSome", "DDesc.structM_okW", "MDescs.rejWM", "MDescs.fill_someM", "DComp.structOfM_ok",
-    "encodeMessage_structW_cases", "PDesc.OkW.toM", "MMShape.leaf_okMid", "MMShape.leaf_okFull", "tMs_described"]]
+    "encodeMessage_structW_cases", "PDesc.OkW.toM", "MMShape.leaf_okMid", "MMShape.leaf_okFull", "wMs_described"]]
